@@ -173,6 +173,65 @@ fn main() {
         };
         out.case("wrap run-one-no-input", &ans, pf.as_deref(), false);
     }
+    // run / partial_run on an If whose `then` branch reads a name that exists nowhere ("ghost"): the
+    // loader accepts the model; the nested run of that branch fails in its own create_plan ("Missing
+    // input") and the parent run reports an operator (subgraph) error - an invalid request reaching an
+    // If body. (The op's capture_names() do not contain the unresolvable name, so prune_plan's third
+    // condition stays false: its true case is not reachable through Model::partial_run.)
+    {
+        use onnx_enc::{dt, Attr, Dim, Graph, Node, ValueInfo};
+        let then_g = Graph {
+            name: "then_g".into(),
+            nodes: vec![Node::new("Add", "t_add", &["x", "ghost"], &["t_r"])],
+            outputs: vec![ValueInfo::new("t_r", dt::FLOAT, None)],
+            ..Default::default()
+        };
+        let else_g = Graph {
+            name: "else_g".into(),
+            nodes: vec![Node::new("Identity", "e_id", &["x"], &["e_r"])],
+            outputs: vec![ValueInfo::new("e_r", dt::FLOAT, None)],
+            ..Default::default()
+        };
+        let g = Graph {
+            nodes: vec![
+                Node::new("Relu", "op_a", &["x"], &["a"]),
+                Node::new("If", "op_if", &["cond"], &["r"]).attr("then_branch", Attr::Graph(then_g)).attr("else_branch", Attr::Graph(else_g)),
+                Node::new("Neg", "op_z", &["r"], &["z"]),
+            ],
+            inputs: vec![
+                ValueInfo::new("x", dt::FLOAT, Some(vec![Dim::Sym("n".into()), Dim::Fixed(4)])),
+                ValueInfo::new("cond", dt::BOOL, Some(vec![])),
+            ],
+            outputs: vec![ValueInfo::new("z", dt::FLOAT, None), ValueInfo::new("a", dt::FLOAT, None)],
+            ..Default::default()
+        };
+        match load(&g.into_model_bytes(18), false) {
+            Err(e) => out.note(&format!("model with an unresolvable name in an If branch does not load ({e})")),
+            Ok(model) => {
+                let (nodes_field, meta_field, _, _) = read_back(&model);
+                let id = |n: &str| model.find_node(n).unwrap().as_u32();
+                for (owned, cond, outs) in [(false, 0, vec!["z", "a"]), (true, 1, vec!["z"]), (false, 1, vec!["r", "a"]), (true, 0, vec!["a"])] {
+                    let req = Req {
+                        inputs: vec![
+                            (id("x"), Spec { dtype: 1, shape: vec![2, 4], owned, ival: 0 }),
+                            (id("cond"), Spec { dtype: 0, shape: vec![], owned: false, ival: cond }),
+                        ],
+                        outs: outs.iter().map(|o| id(o)).collect(),
+                    };
+                    for api in [Api::Partial, Api::Run] {
+                        let (ans, panic_msg) = exec(&model, api, &req);
+                        let ops_ok = if ans == "err:op" { 0 } else { 1 };
+                        let api_s = if api == Api::Partial { "partial" } else { "run" };
+                        let line = format!("{api_s} 1 {ops_ok} {nodes_field} {meta_field} - {}", req.token());
+                        let pf = panic_msg.map(|p| format!("panic: {p}"));
+                        out.bucket("unresolved_capture_name");
+                        out.bucket(&format!("unresolved_capture_{api_s}_{}", ans.split(' ').next().unwrap()));
+                        out.case(&line, &ans, pf.as_deref(), true);
+                    }
+                }
+            }
+        }
+    }
     out.note(&format!("models that failed to load: {load_fail}"));
     out.finish("any panic is a violation; a request invalid by construction that returns Ok is a violation; outcome class (and partial_run leaf ids) equal the Lean model's");
 }
